@@ -3,7 +3,7 @@
 set -u
 export GOFLAGS=-mod=mod GOPROXY=off GOSUMDB=off GOTOOLCHAIN=local
 n="$1"; src=/verif/seeded/$n
-wt=/tmp/mut/reconf-$n; log=/tmp/mut/reconf-$n.log; : > $log
+mkdir -p /tmp/mut; wt=/tmp/mut/reconf-$n; log=/tmp/mut/reconf-$n.log; : > $log
 git -C /repo worktree add -q --detach $wt HEAD >>$log 2>&1 || { echo "$n: worktree failed"; exit 2; }
 trap "git -C /repo worktree remove --force $wt >>$log 2>&1" EXIT
 cd $wt
